@@ -236,6 +236,8 @@ def decorate(func, caller):
         evaldict, __wrapped__=func)
     if hasattr(func, '__qualname__'):
         fun.__qualname__ = func.__qualname__
+    # FunctionMaker renames '<lambda>' to '_lambda_' to be able to compile it
+    fun.__name__ = func.__name__
     return fun
 
 
